@@ -894,6 +894,9 @@ def run(ctx):
     n_runs = n_nontrivial = 0
     exhaustive = []
     n_runs += concurrent_data_oracle(ctx)
+    from vlib import cerconc
+
+    n_runs += cerconc.fc_oracle(ctx, "C12") + cerconc.mixed_oracle(ctx, "C12")
     S = scenarios(ctx)
     for sc in S:
         if sc.fn is None:
